@@ -12,7 +12,7 @@ RULE = (
     "case = backend x generated store (2 buckets, 0..6 events each with app/title/url/status keys) x program from the C11 generator biased towards the in-place "
     "annotators (categorize, tag, split_url_events, period_union, flood, simplify) x optional corruption making it raise midway (unknown function / wrong argument "
     "type / undefined variable placed after an annotator has run on the direct result of query_bucket) x query window (any UTC offsets, sub-ms edges, zero width). "
-    "Oracle: API dump of every bucket before == after, whether the query returned or raised; RETURN=query_bucket(b) equals ds[b].get(starttime=S,endtime=E) event "
+    "Oracle: API dump of every bucket before == after, whether the query returned or raised; RETURN=query_bucket(b) - alone and appended to the generated program, i.e. after its annotators ran in the same query - equals ds[b].get(starttime=S,endtime=E) event "
     "for event and query_bucket_eventcount(b) equals ds[b].get_eventcount(S,E) with S/E the instants handed to query(). "
     "Non-trivial = the program applies an in-place annotator to the direct result of query_bucket, or raises after having done so."
 )
@@ -39,6 +39,7 @@ def strategy(draw, tier="quick"):
         "prog": prog,
         "corrupt": corrupt,
         "win": {"s": s, "len": ln, "tz": draw(gen.offsets()), "tz2": draw(gen.offsets())},
+        "qb": draw(st.integers(0, 1)),
     }
 
 
@@ -102,6 +103,20 @@ def run_case(case):
         if after != before:
             diffs = [f"{b}: {before.get(b)} -> {after.get(b)}" for b in sorted(set(before) | set(after)) if before.get(b) != after.get(b)]
             raise Violation(f"{be}: query {text!r} ({'raised ' + raised if raised else 'returned'}) changed the store: {'; '.join(diffs)[:1500]}")
+        if raised is None:
+            # the same program followed by a bucket read: what ran before (annotators included) must not colour it
+            b = BUCKETS[case.get("qb", 0) % len(BUCKETS)]
+            base_text = ";\n".join(qlang.render([s_]) for s_ in case["prog"])
+            with sut(f"{be}: program followed by query_bucket"):
+                direct = [stores.ev_tuple(e) for e in ds[b].get(starttime=S, endtime=E)]
+                dcount = ds[b].get_eventcount(starttime=S, endtime=E)
+            try:
+                got = [stores.ev_tuple(e) for e in query("q", base_text + f';\nRETURN = query_bucket("{b}")', S, E, ds)]
+                gcount = query("q", base_text + f';\nRETURN = query_bucket_eventcount("{b}")', S, E, ds)
+            except Exception as ex:
+                raise Violation(f"{be}: program {base_text!r} ran, but raised {type(ex).__name__}: {ex} when followed by a bucket read")
+            if got != direct or gcount != dcount:
+                raise Violation(f"{be}: after program {base_text!r}, query_bucket({b!r}) = {got} (count {gcount}); direct windowed read = {direct} (count {dcount})")
         for b in BUCKETS:
             with sut(f"{be}: direct windowed read"):
                 direct = [stores.ev_tuple(e) for e in ds[b].get(starttime=S, endtime=E)]
